@@ -602,11 +602,7 @@ class Interp:
             c = self.truth(self.eval(st.test))
             self.exec_block(st.body if c else st.orelse)
         elif isinstance(st, ast.For):
-            it = self.eval(st.iter)
-            if isinstance(it, dict):
-                it = list(it.keys())
-            if not isinstance(it, (list, tuple)):
-                raise Undecided("loop over a non-literal iterable")
+            it = self.iterable(self.eval(st.iter), "loop")
             for x in it:
                 self.assign(st.target, x)
                 try:
@@ -988,11 +984,7 @@ class Interp:
                 results.append(self.eval(elt))
                 return
             g = gens[i]
-            it = self.eval(g.iter)
-            if isinstance(it, dict):
-                it = list(it.keys())
-            if not isinstance(it, (list, tuple)):
-                raise Undecided("comprehension over a non-literal iterable")
+            it = self.iterable(self.eval(g.iter), "comprehension")
             for x in it:
                 self.assign(g.target, x)
                 if all(self.truth(self.eval(c)) for c in g.ifs):
@@ -1002,6 +994,19 @@ class Interp:
         rec(0)
         self.env = saved
         return results
+
+    def iterable(self, v, what="iteration"):
+        """The python list of the items `for x in v` would visit."""
+        if isinstance(v, dict):
+            return list(v.keys())
+        if isinstance(v, (list, tuple)):
+            return v
+        if isinstance(v, Obj) and "__iter__" in self.externals:
+            try:
+                return list(self.externals["__iter__"](v))
+            except NotHandled:
+                pass
+        raise Undecided(f"{what} over a non-literal iterable")
 
     def eval_args(self, args):
         """Positional actuals with *starred sequences expanded."""
@@ -1226,9 +1231,7 @@ class Interp:
             vals = [int(to_poly(ev(a)).const_value()) for a in args]
             return [Poly.const(i) for i in range(*vals)]
         if name == "zip":
-            seqs = self.eval_args(args)
-            if not all(isinstance(s, (list, tuple)) for s in seqs):
-                raise Undecided("zip over non-lists")
+            seqs = [self.iterable(x, "zip") for x in self.eval_args(args)]
             return [tuple(x) for x in zip(*seqs)]
         if name == "enumerate":
             s = ev(args[0])
